@@ -534,7 +534,9 @@ class Engine:
         eng = self
 
         def get(i):
-            key = str(i)
+            # one record per index *term*; normalised so that n - 1 and -1 + n name the same element
+            iz = zint(i)
+            key = str(z3.simplify(iz)) if not isinstance(iz, int) else str(iz)
             if key not in cache:
                 cache[key] = eng._elem(base, elemty, i)
             return cache[key]
@@ -561,6 +563,9 @@ class Engine:
             o.fieldty = dict(self.world.field_types(elemty[4:]))
             o.symkey = (base, i)
             return o
+        if elemty.startswith(("dict[", "tuple[", "opt[", "either[", "list[")):
+            # structured elements: one fresh value per syntactic index term (cached by the caller)
+            return self.fresh(elemty, "%s[%s]" % (base, z3.simplify(i)))
         raise OutOfSubset("list element type %r" % elemty)
 
     # ---- truthiness / forcing -------------------------------------------------------
@@ -1966,7 +1971,11 @@ class Engine:
                 if is_conc(lo) and lo < 0:
                     raise OutOfSubset("negative slice bound on symbolic list")
                 start = z3.If(loz > n, n, loz)
-                return VList(None, z3.simplify(n - start), lambda i, o=obj, s=start: o.get(z3.simplify(zint(i) + s)), obj.elemty)
+                out = VList(None, z3.simplify(n - start), lambda i, o=obj, s=start: o.get(z3.simplify(zint(i) + s)), obj.elemty)
+                so = getattr(obj, "split_of", None)
+                if so is not None and is_conc(lo):
+                    out.split_of = (so[0], so[1], so[2] + lo, so[3])
+                return out
             if lo is None and hi is not None:
                 hiz = zint(hi)
                 if is_conc(hi) and hi < 0:
